@@ -1,9 +1,9 @@
 #!/venv/bin/python
-"""Mechanical behaviour-preserving variant of the whole tree: every local variable of every function is renamed (NOT a check).
+"""Mechanical behaviour-preserving variant of the whole tree: branch polarity flipped (NOT a check).
 
-  alpha_rename.py <src-root> <dst-root> [suffix]
+  if_invert.py <src-root> <dst-root>
 
-Copies the two source packages of <src-root> to <dst-root> and applies `gsa.selftest.transforms.apply(..., ('rename',))` to the copy
+Copies the two source packages of <src-root> to <dst-root> and applies `gsa.selftest.transforms.apply(..., ('invert',))` to the copy
 (see that module for what exactly is rewritten).  `python -m gsa.check Cxx --root <dst-root>` must stay silent; the thorough
 tier of every property runs the same transformation on a scratch copy of the current tree.
 """
@@ -24,8 +24,8 @@ def main() -> int:
     src, dst = sys.argv[1], sys.argv[2]
     for pkg in PKGS:
         shutil.copytree(os.path.join(src, pkg), os.path.join(dst, pkg), dirs_exist_ok=True)
-    n = transforms.apply(dst, ('rename',), suffix=sys.argv[3] if len(sys.argv) > 3 else "_r")
-    print(f"renamed locals: {n} rewrites -> {dst}")
+    n = transforms.apply(dst, ('invert',))
+    print(f"inverted branches: {n} rewrites -> {dst}")
     return 0
 
 
